@@ -58,15 +58,17 @@ type mailbox struct {
 }
 
 func (mb *mailbox) process(tg tag, work int) {
-	if mb.gate != nil && atomic.CompareAndSwapInt32(&mb.gateUsed, 0, 1) {
-		<-mb.gate
-	}
 	n := atomic.AddInt32(&mb.inflight, 1)
 	for {
 		m := atomic.LoadInt32(&mb.maxIn)
 		if n <= m || atomic.CompareAndSwapInt32(&mb.maxIn, m, n) {
 			break
 		}
+	}
+	// the gate is held INSIDE the counted region: whoever else processes a message of this
+	// mailbox meanwhile (e.g. a Close that drains the queue itself) shows up as a second one in flight
+	if mb.gate != nil && atomic.CompareAndSwapInt32(&mb.gateUsed, 0, 1) {
+		<-mb.gate
 	}
 	for i := 0; i < work; i++ {
 		runtime.Gosched()
@@ -245,9 +247,22 @@ func runScenario(s scenario) result {
 	}
 	closedEarly := false
 	if s.CloseEarly {
-		closeIt() // everything was submitted (Send/Post returned) before this Close
+		// everything was submitted (Send/Post returned) before this Close; Close must not wait for
+		// (or run) the queued work itself, but even if it does the harness must not hang on its own gate
+		closeDone := make(chan struct{})
+		go func() { defer close(closeDone); closeIt() }()
+		select {
+		case <-closeDone:
+		case <-time.After(100 * time.Millisecond):
+		}
 		closedEarly = true
 		close(mb.gate)
+		select {
+		case <-closeDone:
+		case <-time.After(vlib.StallBudget()):
+			res.failKey, res.failMsg = "C12/close-blocks", "Close() did not return"
+			return res
+		}
 	}
 	if !vlib.WaitUntil(vlib.StallBudget(), func() bool { return mb.count() >= total }) {
 		time.Sleep(100 * time.Millisecond)
